@@ -84,6 +84,7 @@ struct RuntimeFunctionIndices {
     math_ceil: u32,
     math_atan2: u32,
     math_pow: u32,
+    math_fmod: u32,
     math_log: u32,
     math_min: u32,
     math_max: u32,
@@ -631,6 +632,7 @@ impl WasmGenerator {
             .function(vec![ValType::F64, ValType::F64], vec![ValType::F64]);
         self.rt.math_atan2 = self.add_import_from("math", "atan2", type_idx_f64_f64_f64);
         self.rt.math_pow = self.add_import_from("math", "pow", type_idx_f64_f64_f64);
+        self.rt.math_fmod = self.add_import_from("math", "fmod", type_idx_f64_f64_f64);
         self.rt.math_min = self.add_import_from("math", "min", type_idx_f64_f64_f64);
         self.rt.math_max = self.add_import_from("math", "max", type_idx_f64_f64_f64);
     }
@@ -2373,36 +2375,12 @@ impl WasmGenerator {
                 func.instruction(&W::Call(self.rt.math_pow));
             }
             I::ModF(a, b) => {
-                // WASM has no native f64 remainder. The result is
-                //   select(a, r, |b| == inf && |a| < inf)
-                // with r = copysign(|a - trunc(a/b) * b|, a): the remainder takes the sign of
-                // the dividend also when it is zero (the native VM's `%` yields -0.0 for
-                // -7 % 7), and a finite dividend is its own remainder for an infinite divisor
-                // (where the formula alone would yield NaN).
-                self.emit_value_load_typed(a, ValType::F64, func);
-                // r
-                self.emit_value_load_typed(a, ValType::F64, func);
+                // WASM has no native f64 remainder, and `a - trunc(a / b) * b` is not the
+                // remainder (it is inexact, overflows for tiny divisors and loses the sign of
+                // zero): the host computes it exactly, as the native VM does.
                 self.emit_value_load_typed(a, ValType::F64, func);
                 self.emit_value_load_typed(b, ValType::F64, func);
-                func.instruction(&W::F64Div);
-                func.instruction(&W::F64Trunc);
-                self.emit_value_load_typed(b, ValType::F64, func);
-                func.instruction(&W::F64Mul);
-                func.instruction(&W::F64Sub);
-                func.instruction(&W::F64Abs);
-                self.emit_value_load_typed(a, ValType::F64, func);
-                func.instruction(&W::F64Copysign);
-                // condition
-                self.emit_value_load_typed(a, ValType::F64, func);
-                func.instruction(&W::F64Abs);
-                func.instruction(&W::F64Const(f64::INFINITY));
-                func.instruction(&W::F64Lt);
-                self.emit_value_load_typed(b, ValType::F64, func);
-                func.instruction(&W::F64Abs);
-                func.instruction(&W::F64Const(f64::INFINITY));
-                func.instruction(&W::F64Eq);
-                func.instruction(&W::I32And);
-                func.instruction(&W::Select);
+                func.instruction(&W::Call(self.rt.math_fmod));
             }
 
             // Integer arithmetic operations
